@@ -39,7 +39,9 @@ func floatMatches(got string, want float64, bits int) bool {
 		return false
 	}
 	if bits == 32 {
-		return math.Float32frombits(uint32(v)) == float32(want)
+		g, w := math.Float32frombits(uint32(v)), float32(want)
+		// one unit in the last place (single- vs double-rounded quotient)
+		return g == w || math.Nextafter32(g, w) == w
 	}
 	return math.Float64frombits(v) == want
 }
